@@ -13,10 +13,10 @@ KANI_TB = "Trusted: Kani/CBMC, the hand-written shim environment (shims/common.r
 CHECKS = {
     "C01": dict(
         category="proof",
-        technique="Kani loop-free harnesses (full-domain symbolic store + u128 amounts) on the extracted increase/decrease_balance, fee, pay_fee, add_fee_to_block_fees, Transfer/BridgeLock/BridgeUnlock execute",
+        technique="Kani loop-free harnesses (full-domain symbolic store + u128 amounts) on the extracted increase/decrease_balance, fee, pay_fee, add_fee_to_block_fees, App::end_block, Transfer/BridgeLock/BridgeUnlock/Ics20Withdrawal execute",
         text="Each ledger-moving function is verified for all amounts and all initial states of the keys it touches: exact debit/credit in mathematical integers (no wrap, no saturation), "
-             "conservation per call including the alias case, write frame (no other key changes), fee == base + multiplier*size exactly, fee debited from the signer only and credited to the block-fee map by the same amount.",
-        note=KANI_TB + " Not under contract: App::end_block fee routing loop, ICS-20 mint/burn (C18), BridgeTransfer, per-action FeeHandler impls, the lifting from per-call to per-block conservation (argued in DESIGN, not mechanised).",
+             "conservation per call including the alias case, write frame (no other key changes), fee == base + multiplier*size exactly, fee debited from the signer only and credited to the block-fee map by the same amount, and end_block credits every asset's block total to the fee recipient exactly (map of <= 2 assets, bounded).",
+        note=KANI_TB + " Not under contract: BridgeTransfer, ICS-20 receive/refund are under C18, per-action FeeHandler impls, the lifting from per-call to per-block conservation (argued in DESIGN, not mechanised).",
     ),
     "C02": dict(
         category="proof",
@@ -104,7 +104,7 @@ CHECKS = {
         technique="Kani loop-free harnesses on the extracted CheckedValidatorUpdate::do_run_mutable_checks/execute (post-Aspen branch) against a symbolic store; split obligation for the known finding K1",
         text="execute == Ok implies: signer is the current sudo; the validator entry, the stored count and the block's update entry for the key change together (count changes exactly as membership does, so count == size is preserved); "
              "a removal requires the validator to exist and count > 1 (never empties the set); only these three keys are written. The obligation that a reported removal names a validator CometBFT has is a listed known finding (K1).",
-        note=KANI_TB + " Pre-Aspen branch, ValidatorSet::apply_updates, authority end_block and App::end_block (return-and-clear) are not under contract; precondition count < u64::MAX.",
+        note=KANI_TB + " App::end_block returns exactly the block's update set and clears it (unit c01_end_block). Pre-Aspen branch, ValidatorSet::apply_updates and authority end_block are not under contract; precondition count < u64::MAX.",
     ),
     "C15": dict(
         category="proof",
